@@ -163,6 +163,9 @@ func Note(site int, kind string, obj any, owner any, val string) {
 // Plain logs a plain (non-atomic) access to a watched field of owner; kind is "R" or "W".
 func Plain(site int, owner any, kind string) { Note(site, "plain"+kind, owner, nil, "") }
 
+// Cancel logs the call of a context.CancelFunc (the Done channel is closed by the runtime).
+func Cancel(site int) { Note(site, "cancel", nil, nil, "") }
+
 func Enter(site int, recv any) int {
 	Note(site, "enter", recv, nil, "")
 	return site
@@ -370,6 +373,9 @@ func goImpl(site int, name string, client bool, f func()) {
 		}()
 		f()
 	}()
+	// the new goroutine may take its first step before the scheduling point below is logged:
+	// "spawn" marks the instant of the go statement (what happens-before the goroutine's start)
+	Note(site, "spawn", nil, nil, fmt.Sprint(ng.ID))
 	Do(site, "go", nil, nil, nil, func() string { return fmt.Sprint(ng.ID) })
 }
 
